@@ -85,7 +85,7 @@ pub fn execute(property: &str, variant: usize, tier: props::Tier, dec: kernel::D
     // attribute panics
     for p in panics.drain(..) {
         if kernel::location_in_repo(&p.location) {
-            let (prop, class) = props::classify_panic(&p);
+            let (prop, class) = props::classify_panic(&p, property);
             if !ctx.violations.iter().any(|v| v.property == prop && v.class == class) {
                 ctx.violations.push(kernel::Violation {
                     property: prop,
@@ -95,7 +95,7 @@ pub fn execute(property: &str, variant: usize, tier: props::Tier, dec: kernel::D
                     virt_ms: p.virt_ms,
                 });
             }
-        } else if p.location.contains("/verif/sim/") {
+        } else if p.location.contains("/verif/sim/") || p.location.starts_with("src/") {
             harness_errors.push(format!("harness panic at {}: {}", p.location, p.message));
         } else {
             // dependency code (tokio, blst, ...): treat as harness error unless reached through repo code
